@@ -321,6 +321,8 @@ func (o EOp) Line() string {
 		return o.Kind + " " + o.PType + " " + proto.EncRule(o.Args)
 	case "iusersrole", "igrant", "iusers", "iusersres":
 		return o.Kind + " " + proto.EncRule(o.Args)
+	case "mpos":
+		return "mpos"
 	case "iperms":
 		return "iperms " + o.What + " " + o.PType + " " + proto.EncRule(o.Args)
 	}
@@ -654,6 +656,9 @@ func (s *Sess) Exec(o EOp) (obs string) {
 			return "err"
 		}
 		return encSet(rs)
+	case "mpos":
+		// what the generator built: the matcher has / has not a negated role test
+		return o.Args[0]
 	case "iroles":
 		rs, err := e.GetNamedImplicitRolesForUser(o.PType, o.Args[0], o.Args[1:]...)
 		if err != nil {
